@@ -147,6 +147,20 @@ def gen_cases(rng, tier):
             d = r.choice(COLLIDE)
             recs.append(["rec", d, [V.S(V.gen_text(r)), V.S(V.gen_text(r))], {"_generated": GEN}])
         cases.append({"kind": "stream", "descriptors": "true", "indent": None, "records": recs, "collide": True})
+    # a write that FAILS (an integer beyond json.dumps' int-to-text limit), the caller carries on with good records of
+    # the same and of other types: everything accepted must still be in the file, readable, each type defined first
+    r = rng.fork("poison")
+    for _ in range(max(4, n // 40)):
+        da = ["test/p", [["varint", "n"], ["string", "s"]]]
+        db = ["test/q", [["string", "s"], ["varint", "n"], ["boolean", "b"]]]
+        recs = []
+        for _ in range(r.randint(2, 5)):
+            d_ = r.choice([da, da, db])
+            vals = [V.I(r.randint(0, 99)) if t == "varint" else V.S(V.gen_text(r)) if t == "string" else ["bool", r.below(2)]
+                    for t, _ in d_[1]]
+            recs.append(["rec", d_, vals, {"_generated": GEN}])
+        cases.append({"kind": "stream", "descriptors": "true", "indent": r.choice([None, None, 2]), "records": recs,
+                      "poison": sorted(set(r.sample(list(range(len(recs))), r.randint(1, 2)) + ([0] if r.chance(60) else [])))})
     # non-finite floats, reported separately
     r = rng.fork("nonfinite")
     for _ in range(max(3, n // 40)):
@@ -348,7 +362,15 @@ def run_real(case):
         try:
             w = RecordWriter("jsonfile://" + path + "?" + q)
             try:
-                for x in recs:
+                for i, x in enumerate(recs):
+                    if i in case.get("poison", ()) and "n" in x.__slots__:
+                        # the same record with an integer that json.dumps refuses: the write raises, the caller goes on
+                        bad = x._replace(n=10 ** 5000)
+                        try:
+                            w.write(bad)
+                            obs["poison_accepted"] = True
+                        except (ValueError, OverflowError):
+                            pass
                     w.write(x)
                 w.flush()
             finally:
